@@ -1,7 +1,7 @@
 import CashewsVerif.Model.Mem
 /-
 Model of `cashews/backends/transaction.py` (`TransactionBackend`, `LockTransactionBackend`), as
-repaired by cd9f1a2 / fa23973 / 4d68168: a private overlay `Memory()` (`_local_cache`, size 1000,
+repaired by cd9f1a2 / fa23973 / 4d68168: a private overlay `Memory(size=sys.maxsize)` (`_local_cache`: as repaired by D45 the write buffer never evicts,
 no serializer, never `init`-ed so no purge task), a pending-delete set (`_to_delete`) and, in the
 locked / serializable modes, the set of lock keys taken on the real backend.
 
@@ -37,8 +37,12 @@ structure TxSt where
 namespace TxSt
 open Store
 
-/-- `Memory()`: empty, size 1000, on the same clock -/
-def freshOverlay (now : Time) : Mem := { now := now, cap := 1000, store := [] }
+/-- `_BUFFER_SIZE = sys.maxsize`: the write buffer of a transaction is not a cache and must never evict a pending
+write (D45: it used to be `Memory()` with the default LRU size 1000, so the 1001st buffered key pushed out the oldest) -/
+def overlaySize : Nat := 9223372036854775807
+
+/-- `Memory(size=_BUFFER_SIZE)`: empty, on the same clock -/
+def freshOverlay (now : Time) : Mem := { now := now, cap := overlaySize, store := [] }
 
 /-- `TransactionBackend(backend)` / `LockTransactionBackend(backend, serializable, timeout)` -/
 def begin_ (b : Mem) (mode : TxMode) (lockId : Nat) (timeout : Nat) : TxSt :=
